@@ -21,15 +21,18 @@
 EXTENDS MolModel
 CONSTANTS Pool,         \* abstract objects offered to Put (model checking); unused by trace validation
           Keys,
+          Handles,      \* subset of {"w", "r", "f"}: writer object, second read-only object, read-only object in a FRESH process
           Deviations    \* named wrong behaviours; {} = required behaviour
 VARIABLES file,     \* [exists, magic, kind, recs : [key -> wire tuple]]
-          hs,       \* [{"w","r"} -> [made, codec]]
+          hs,       \* [Handles -> [made, codec]]: the library objects currently alive on the path
           written,  \* history: key -> the abstract object that was put
-          cache,    \* [{"w","r"} -> [key -> object]]: decoded objects a library object keeps and hands out again
+          seen,     \* what this process remembers about the path (0 = nothing): stays 0 in the required behaviour,
+                    \* where the type field of the file is looked at whenever a library object is constructed
+          cache,    \* [Handles -> [key -> object]]: decoded objects a library object keeps and hands out again
                     \* (empty in the required behaviour: every read decodes the stored record afresh)
           last      \* observation (excluded from fingerprints by VIEW)
-vars == <<file, hs, written, cache, last>>
-sv   == <<file, hs, written, cache>>
+vars == <<file, hs, written, seen, cache, last>>
+sv   == <<file, hs, written, seen, cache>>
 Dev(d) == d \in Deviations
 (* TLC evaluates a quantifier that is a conjunct of an ACTION by recursion over its range (it might contain primes); *)
 (* wrapped in an equation the predicate is evaluated as a state function, iteratively, whatever the size of the object *)
@@ -153,9 +156,10 @@ Decode(v, kind, w) ==
 
 (* ----- the library ------------------------------------------------------------*)
 Init == /\ file = [exists |-> FALSE, magic |-> "none", kind |-> "none", recs |-> NoRecs]
-        /\ hs = [h \in {"w", "r"} |-> [made |-> FALSE, codec |-> 0]]
+        /\ hs = [h \in Handles |-> [made |-> FALSE, codec |-> 0]]
         /\ written = NoRecs
-        /\ cache = [h \in {"w", "r"} |-> NoRecs]
+        /\ cache = [h \in Handles |-> NoRecs]
+        /\ seen = 0
         /\ last = [act |-> "init", out |-> "ok"]
 Note(a, o) == last' = a @@ [out |-> o]
 
@@ -163,27 +167,42 @@ Note(a, o) == last' = a @@ [out |-> o]
 MakeLegacy(kind) ==
   /\ ~file.exists
   /\ file' = [exists |-> TRUE, magic |-> "ML10Library", kind |-> kind, recs |-> NoRecs]
-  /\ UNCHANGED <<hs, written, cache>> /\ Note([act |-> "legacy", kind |-> kind], "ok")
+  /\ UNCHANGED <<hs, written, seen, cache>> /\ Note([act |-> "legacy", kind |-> kind], "ok")
 
 (* ... and holds records that a previous molli wrote with the legacy schema *)
 LegacyPut(k, x) ==
-  /\ file.exists /\ file.magic = "ML10Library" /\ \A h \in {"w", "r"} : ~hs[h].made
+  /\ file.exists /\ file.magic = "ML10Library" /\ \A h \in Handles : ~hs[h].made
   /\ k \notin DOMAIN file.recs /\ x.kind = file.kind /\ Holds(InDom(1, x))
   /\ file' = [file EXCEPT !.recs = With(@, k, Encode(1, x))]
   /\ written' = With(written, k, x)
-  /\ UNCHANGED <<hs, cache>> /\ Note([act |-> "lput", k |-> k, x |-> x], "ok")
+  /\ UNCHANGED <<hs, seen, cache>> /\ Note([act |-> "lput", k |-> k, x |-> x], "ok")
 
-(* MoleculeLibrary(path, readonly = (h = "r")) / ConformerLibrary(...): sniffs the magic, picks the codec *)
-CodecFor(h, magic) == IF magic = "ML10Library" /\ ~Dev("MagicIgnored") /\ ~(Dev("MagicIgnoredByReader") /\ h = "r") THEN 1 ELSE 2
+(* MoleculeLibrary(path, readonly = (h # "w")) / ConformerLibrary(...): sniffs the magic, picks the codec.     *)
+(* Deviation "VersionMemoisedPerPath": the process looks at a path only the first time it meets it and keeps   *)
+(* the answer, also after the file was removed and another one created there (a fresh process starts anew).   *)
+ByMagic(magic) == IF magic = "ML10Library" THEN 1 ELSE 2
+Memo(h)        == Dev("VersionMemoisedPerPath") /\ h # "f"
+CodecFor(h, magic) == IF Memo(h) /\ seen # 0 THEN seen
+                      ELSE IF Dev("MagicIgnored") \/ (Dev("MagicIgnoredByReader") /\ h = "r") THEN 2 ELSE ByMagic(magic)
 OpenLib(h, kind) ==
   LET a == [act |-> "open", h |-> h, kind |-> kind] IN
   /\ ~hs[h].made
   /\ file.exists => file.kind = kind                 \* scope: a MoleculeLibrary on a .clib is outside the claim
-  /\ IF ~file.exists /\ h = "r"
-       THEN UNCHANGED sv /\ Note(a, "FileNotFoundError")
+  /\ seen' = IF Memo(h) /\ seen = 0 THEN ByMagic(file.magic) ELSE seen       \* the look happens before anything is created
+  /\ IF ~file.exists /\ h # "w"
+       THEN UNCHANGED <<file, hs, written, cache>> /\ Note(a, "FileNotFoundError")
        ELSE /\ file' = IF file.exists THEN file ELSE [exists |-> TRUE, magic |-> "ML10UKV01", kind |-> kind, recs |-> NoRecs]
-            /\ hs' = [hs EXCEPT ![h] = [made |-> TRUE, codec |-> CodecFor(h, file'.magic)]]
+            /\ hs' = [hs EXCEPT ![h] = [made |-> TRUE, codec |-> CodecFor(h, file.magic)]]
             /\ UNCHANGED <<written, cache>> /\ Note(a, "ok")
+
+(* the library file is removed (its library objects are dropped with it); whatever is created at the same path  *)
+(* afterwards -- a legacy file, or a new library -- is a new file                                             *)
+Remove ==
+  /\ file.exists
+  /\ file' = [exists |-> FALSE, magic |-> "none", kind |-> "none", recs |-> NoRecs]
+  /\ hs' = [h \in Handles |-> [made |-> FALSE, codec |-> 0]]
+  /\ written' = NoRecs /\ cache' = [h \in Handles |-> NoRecs]
+  /\ UNCHANGED seen /\ Note([act |-> "remove"], "ok")
 
 (* lib[k] = x inside writing() *)
 Put(k, x) ==
@@ -194,7 +213,7 @@ Put(k, x) ==
   /\ IF ~Packable(x) THEN UNCHANGED sv /\ Note(a, "OverflowError")
      ELSE /\ file' = [file EXCEPT !.recs = With(@, k, Encode(v, x))]
           /\ written' = With(written, k, x)
-          /\ UNCHANGED <<hs, cache>> /\ Note(a, "ok")
+          /\ UNCHANGED <<hs, seen, cache>> /\ Note(a, "ok")
 
 (* lib[k] inside writing() (h = "w") or through the second object inside reading() (h = "r").              *)
 (* Required: every read decodes the stored record; what the caller does with the object it was handed is     *)
@@ -204,7 +223,7 @@ Get(h, k) ==
   LET v == hs[h].codec
       a == [act |-> "get", h |-> h, k |-> k, ver |-> v] IN
   /\ hs[h].made /\ k \in DOMAIN file.recs
-  /\ UNCHANGED <<file, hs, written>>
+  /\ UNCHANGED <<file, hs, written, seen>>
   /\ IF Dev("AliasedReadCache") /\ k \in DOMAIN cache[h]
        THEN UNCHANGED cache /\ last' = a @@ [out |-> "ok", val |-> cache[h][k]]
        ELSE IF Unpackable(v, written[k]) THEN UNCHANGED cache /\ Note(a, "ValueError")
@@ -218,16 +237,17 @@ Get(h, k) ==
 Scribbled(x) == [x EXCEPT !.name = "s:scribbled"]
 Scribble(h, k) ==
   /\ hs[h].made /\ k \in DOMAIN file.recs
-  /\ UNCHANGED <<file, hs, written>>
+  /\ UNCHANGED <<file, hs, written, seen>>
   /\ cache' = IF k \in DOMAIN cache[h] THEN [cache EXCEPT ![h] = With(@, k, Scribbled(@[k]))] ELSE cache
   /\ Note([act |-> "scribble", h |-> h, k |-> k], "ok")
 
 Next == \/ \E kind \in Kinds : MakeLegacy(kind)
         \/ \E k \in Keys, x \in Pool : LegacyPut(k, x)
-        \/ \E h \in {"w", "r"}, kind \in Kinds : OpenLib(h, kind)
+        \/ \E h \in Handles, kind \in Kinds : OpenLib(h, kind)
         \/ \E k \in Keys, x \in Pool : Put(k, x)
-        \/ \E h \in {"w", "r"}, k \in Keys : Get(h, k)
-        \/ \E h \in {"w", "r"}, k \in Keys : Scribble(h, k)
+        \/ \E h \in Handles, k \in Keys : Get(h, k)
+        \/ \E h \in Handles, k \in Keys : Scribble(h, k)
+        \/ Remove
 Spec == Init /\ [][Next]_vars
 
 (* ----- the clauses of C01 ---------------------------------------------------*)
@@ -239,10 +259,10 @@ V1DomainClosed == [][(last'.act = "get" /\ last'.out = "ok" /\ FileVer = 1) => I
 (* every object of the schema's domain can be written *)
 PutAccepted    == [][last'.act = "put" => last'.out = "ok"]_vars
 (* the codec follows the file, not the object that happens to open it *)
-CodecByMagic   == \A h \in {"w", "r"} : hs[h].made => hs[h].codec = FileVer
+CodecByMagic   == \A h \in Handles : hs[h].made => hs[h].codec = FileVer
 (* records have the documented shape *)
 StoredInSchema == \A k \in DOMAIN file.recs : Len(file.recs[k]) = Arity(FileVer, file.kind)
 KeysAreWritten == DOMAIN file.recs = DOMAIN written
 (* a library object holds no decoded object that a caller could reach *)
-NothingShared  == \A h \in {"w", "r"} : DOMAIN cache[h] = {}
+NothingShared  == \A h \in Handles : DOMAIN cache[h] = {}
 =============================================================================
